@@ -157,7 +157,11 @@ pub fn run(cx: &mut Ctx, idx: u64) {
         for l in &w {
             d.extend_from_slice(&u.enc[ti][*l]);
         }
-        eps::dataset_eps(cx, ti, &d, &what, Depth::Full);
+        // 5-letter words (thorough): the minimal data set configurations only
+        eps::dataset_eps(cx, ti, &d, &what, if w.len() >= 5 { Depth::Minimal } else { Depth::Full });
+        if w.len() >= 5 {
+            continue;
+        }
         for (pi, pn) in [(1usize, "preamble"), (0, "no-preamble")] {
             if !short && pi == 0 {
                 continue;
